@@ -93,12 +93,16 @@ Fixpoint set_nth {A} (n : nat) (x : A) (l : list A) : list A :=
 Definition opt_bind {A B} (o : option A) (f : A -> option B) : option B :=
   match o with Some a => f a | None => None end.
 
-(** first element of [l] on which [f] yields [Some] *)
-Fixpoint first_some {A B} (f : A -> option B) (l : list A) : option B :=
-  match l with
-  | [] => None
-  | x :: l' => match f x with Some b => Some b | None => first_some f l' end
-  end.
+(** first element of [l] on which [f] yields [Some] ([f] outside the fixpoint, as in List.map, so
+    that recursive calls through it pass the guard check) *)
+Section FirstSome.
+  Context {A B : Type} (f : A -> option B).
+  Fixpoint first_some (l : list A) : option B :=
+    match l with
+    | [] => None
+    | x :: l' => match f x with Some b => Some b | None => first_some l' end
+    end.
+End FirstSome.
 
 Fixpoint concat_str (sep : str) (l : list str) : str :=
   match l with
